@@ -145,20 +145,38 @@ def write_prog(progs, path):
 
 
 # ------------------------------------------------------------------------------------------------ analysis helpers
-def pair_at(path, line):
-    """(event at `line`, the pair marker that precedes it)."""
-    pair, ev = None, {}
-    try:
-        with open(path) as f:
-            for i, l in enumerate(f, 1):
-                if '"e":"pair"' in l:
-                    pair = json.loads(l)
-                if i == line:
-                    ev = json.loads(l)
-                    break
-    except Exception:
-        pass
-    return ev, pair
+class TraceIndex:
+    """A recorded trace with, for every line, the pair marker that precedes it."""
+
+    def __init__(self, path):
+        self.lines = open(path).read().splitlines()
+        self.pair_of, cur = [], None
+        for l in self.lines:
+            if l.startswith('{"e":"pair"'):
+                cur = l
+            self.pair_of.append(cur)
+
+    def ev(self, line):
+        try:
+            return json.loads(self.lines[line - 1]) if 1 <= line <= len(self.lines) else {}
+        except ValueError:
+            return {}
+
+    def pair(self, line):
+        p = self.pair_of[line - 1] if 1 <= line <= len(self.lines) else None
+        return json.loads(p) if p else None
+
+    def role(self, line):
+        """(entry point, is it one of the two witness blocks?) of the step at `line` (a crash belongs to the call before it)."""
+        ev = self.ev(line)
+        if ev.get("e") == "crash":
+            line -= 1
+            ev = self.ev(line)
+        op = ev.get("op", ev.get("e", "?"))
+        bid = ev.get("id", 0)
+        if ev.get("e") == "ret" and not bid:
+            bid = self.ev(line - 1).get("id", 0)
+        return op, (bid % 16) in (1, 2)
 
 
 def run(tier, seed):
@@ -223,9 +241,9 @@ def run(tier, seed):
                     for mode in ("preload", "static"):
                         tr = os.path.join(od, "ovr_%s_%s_%s_%d_%d.ndjson" % (name, lang, mode, rep, si // k))
                         exe = exes[("ovr_" + lang, mode)]
-                        cmd = ["env", "-i"] + (["LD_PRELOAD=" + so] if mode == "preload" else []) + [exe, "--out", tr, "--prog", pf, "--mode", mode, "--dir", od]
+                        cmd = ["env", "-i"] + (["LD_PRELOAD=" + so] if mode == "preload" else []) + [exe, "--out", tr, "--prog", pf, "--mode", mode, "--dir", od, "--watchdog", str((40, 200)[q])]
                         runs.append((tr, name, mode, lang, len(order[si:si + k])))
-                        jobs.append(lambda cmd=cmd: vlib.sh(cmd, timeout=600))
+                        jobs.append(lambda cmd=cmd: vlib.sh(cmd, timeout=420))
         for lang in ("c", "cpp"):
             for mode in ("preload", "static"):
                 tr = os.path.join(od, "ovr_smoke_%s_%s_%s.ndjson" % (name, lang, mode))
@@ -259,20 +277,20 @@ def run(tier, seed):
         if (r["consumed"] or 0) < r["total"] and not any(g[0].startswith("Invariant.") for g in fails):
             fails.append(("Unexplained", (r["consumed"] or 0) + 1, "no action of the specification explains this event"))
         keep = None
+        ti = TraceIndex(tr) if fails else None
         for name, line, detail in fails:
-            ev, pair = pair_at(tr, line)
-            op = ev.get("op", ev.get("e", "?"))
+            op, witness = ti.role(line)
+            pair = ti.pair(line)
             if name in HARNESS_GUARDS:
                 harness_fail.append((name, tr, line, op))
                 continue
             if keep is None:
                 keep = os.path.join(vlib.keepdir(PROP), os.path.basename(tr))
                 shutil.copyfile(tr, keep)
-            if name == "NoCrash":      # the crash line follows the call that crashed
-                ev0, pair = pair_at(tr, line - 1)
-                op = ev0.get("op", "?")
             if pair is None:
                 key = (name, "program", rn[3], op)
+            elif witness:
+                key = (name, "witness", "", op)
             else:
                 key = (name, pair["ae"], pair["re"], op)
             viol.setdefault(key, ("%s:%d" % (keep, line), "%s [%s build, %s, %s driver] %s" % (op, rn[1], rn[2], rn[3], str(detail).strip('"'))))
@@ -287,23 +305,30 @@ def run(tier, seed):
     for (name, ae, re_, op), (rp, det) in sorted(viol.items()):
         if ae == "program":
             sig = "%s:%s(whole-program %s)" % (name, op, re_)
+        elif ae == "witness":
+            sig = "%s:%s(witness block)" % (name, op)
         elif op == ae:
             sig = "%s:%s->*" % (name, ae)
         else:
             sig = "%s:%s->%s" % (name, ae, re_) + ("" if op == re_ else "(%s)" % op)
         sigs.setdefault(sig, (rp, det, name, ae, re_, op))
-    byrel = {}
+    byrel, byfin = {}, {}
+    plain = lambda ae: ae not in ("program", "witness")
     for sig, (rp, det, name, ae, re_, op) in sigs.items():
-        if op == re_ and ae != "program":
+        if plain(ae) and op == re_:
             byrel.setdefault((name, re_), set()).add(ae)
-    collapse = {k for k, s in byrel.items() if len(s) >= 3}
+        elif plain(ae) and op != ae:
+            byfin.setdefault((name, op), set()).add((ae, re_))
     done = set()
     for sig, (rp, det, name, ae, re_, op) in sorted(sigs.items()):
-        if (name, re_) in collapse and op == re_ and ae != "program":
-            if (name, re_) in done:
-                continue
-            done.add((name, re_))
-            V.violation("%s:*->%s" % (name, re_), rp, det + " (with blocks of %d of the %d allocating entry points)" % (len(byrel[(name, re_)]), len(aes)))
+        if plain(ae) and op == re_ and len(byrel[(name, re_)]) >= 3:
+            if ("rel", name, re_) not in done:
+                done.add(("rel", name, re_))
+                V.violation("%s:*->%s" % (name, re_), rp, det + " (with blocks of %d of the %d allocating entry points)" % (len(byrel[(name, re_)]), len(aes)))
+        elif plain(ae) and op != re_ and op != ae and len(byfin[(name, op)]) >= 3:
+            if ("fin", name, op) not in done:
+                done.add(("fin", name, op))
+                V.violation("%s:*->*(%s)" % (name, op), rp, det + " (closing step of %d pairs)" % len(byfin[(name, op)]))
         else:
             V.violation(sig, rp, det)
 
